@@ -9,7 +9,7 @@ import transval, kernels
 def sigma_residual(q, sigma, iota):
     """the discretised sigma equation written from the property, not from the code"""
     E = q.etabar ** 2 / q.curvature ** 2
-    return q.d_d_varphi @ sigma + (iota + q.helicity * q.nfp) * (E * E + 1 + sigma * sigma) \
+    return dvarphi_indep(q, sigma) + (iota + q.helicity * q.nfp) * (E * E + 1 + sigma * sigma) \
         - 2 * E * (-q.spsi * q.torsion + q.I2 / q.B0) * q.G0 / q.B0
 
 
